@@ -45,6 +45,9 @@ def register(CHECKS, H):
     for u in ("c11_f3", "c11_d3"):
         q.append(run(u, "graph", n="2,3,4", vals="1,2", thr="max,inf", dims="auto", mods="2,3"))
         q.append(run(u, "graph", n="5", vals="1", thr="max", dims="auto", mods="2,3"))
+    # 8-point cross-polytope boundaries (the smallest inputs with a class in dimension 3): dim_max 3 really reaches
+    # the tetrahedra list built from the triangles
+    q.append(run("c11_f2", "xpoly", free=14, vals="1,2", thr="inf", dims="3", mods="2,3", shards=4))
     q.append(run("c11_f3", "rp2", permstep=30, dims="1,2", mods="2,3", shards=2))
     q.append(run("c11_d3", "rp2", permstep=240, dims="2", mods="2,3"))
     q.append(run("c11_f3", "big", big="5000:3,65536:2,70000:2,140000:6", k=3, vals="1,2", mods="2,3", shards=3))
@@ -82,6 +85,8 @@ def register(CHECKS, H):
     t.append(run("c11_f3", "graph", n="5", vals="1,2", thr="max", dims="auto", mods="2,3", shards=4, timeout=TO))
     t.append(run("c11_d3", "graph", n="2,3,4", vals="1,2", thr="max,inf", dims="auto", mods="2,3", timeout=TO))
     t.append(run("c11_d3", "graph", n="5", vals="1", thr="max", dims="auto", mods="2,3", timeout=TO))
+    t.append(run("c11_f2", "xpoly", free=20, vals="1,2", thr="2,inf", dims="3", mods="2,3", shards=8, timeout=TO))
+    t.append(run("c11_d3", "xpoly", free=12, vals="1,2", thr="inf", dims="3", mods="2,3", shards=2, timeout=TO))
     t.append(run("c11_f3", "rp2", permstep=1, dims="2", mods="2,3", shards=4, timeout=TO))
     t.append(run("c11_d3", "rp2", permstep=30, dims="1,2", mods="2,3,5", shards=2, timeout=TO))
     t.append(run("c11_f3", "big", big="5000:3,140000:6", k=4, vals="1,2", mods="2,3", shards=6, timeout=TO))
@@ -119,11 +124,13 @@ def register(CHECKS, H):
             "quick": ("n<=4 x {1,2,3} and {0,1,2} full grid; n=5 x {1,2} full grid; n=5 x {1,2,3} at thresholds {2,inf}, dim_max 3, "
                       "mod 3 (float); n=6 x {1,2} at threshold 1, dim_max 2, mod 2 (float; lower, upper, sparse); grid clouds: ordered n<=3, subsets n=4; "
                       "edge lists n<=4 x {absent,1,2}, n=5 x {absent,1}; RP^2 24 relabelings x 8 weightings; large inputs with 3 "
-                      "embedded vertices; conversions n<=4"),
+                      "embedded vertices; conversions n<=4; 8-point cross-polytope boundaries (antipodal pairs at 3, {1,2} on 14 of the "
+                      "24 other pairs, 2 placements, dim_max 3, mod 2,3)"),
             "thorough": ("n=5 x {1,2,3} at thresholds {2,3,inf}, dim_max {1,3}, mod {2,3}; n=6 x {1,2} at {1,2,inf}, dim_max 2, mod {2,3}; "
                          "n=5 x {0,1,2} at {0,1,inf}; n=5 x {1,2} full grid with moduli 2,3,5,7; n<=4 full grid with moduli up to 65521; "
                          "grid clouds up to 5 points; edge lists n=5 x {absent,1,2}; RP^2 all 720 relabelings x 8 weightings; large "
-                         "inputs with every weighted graph on 4 embedded vertices"),
+                         "inputs with every weighted graph on 4 embedded vertices; cross-polytope boundaries with 20 free pairs at thresholds "
+                         "{2,inf} (float) and 12 free pairs (double)"),
         },
         "assumptions": [
             "dissimilarity: symmetric, zero diagonal, non-negative small integers (or sqrt of small integers for point clouds)",
